@@ -291,6 +291,10 @@ def batches_for(prop, tier):
         return [
             Batch("purity", "layout", 700 if q else 20000, {}, "purity/interleaved-clients+layout-twin+isolation"),
             Batch("purity", "asan", 60 if q else 1500, {"probes": 0}, "purity/asan-smoke"),
+            # generated import graphs: a resolution repeated with nothing in between answers the same; flattenModel leaves its
+            # input and the library models unchanged
+            Batch("import", "asan", 200 * (36 if q else 288), {"sweep": 1, "enum": 1, "keep": 1}, "import/repeated-resolution+flatten-purity"),
+            Batch("import", "asan", 1200 if q else 30000, {}, "import/seeded-multi-fault"),
         ]
     if prop == "C13":
         return [
